@@ -9,12 +9,12 @@ func init() {
 		"(R01e) a decoded message is dereferenced only where `err == nil` is established (or it is non-nil by construction), and the error edge of every listener/transport decode leads to drop / close / HTTP 400 / abort without serving anything; "+
 		"(R01f) narrowing conversions of lengths and offsets in the decoders are proved in range (an over-long name is rejected, not wrapped; the encoder's and the transports' conversions are checked by the same rule under C02 and C05). "+
 		"Not decided: panics inside dependencies (gnet, quic-go, fasthttp, net/http parse their own framing), memory exhaustion (e.g. a redis value announcing a 4 GiB s2 length), nil dereferences of values other than *dnsmsg.Msg, liveness of the process as a whole, and schedule-dependent state (the idle timer of a fresh upstream connection firing before its first use).",
-		Rule{ID: "R01a", Doc: "bounds of every index/slice in the decode closure", Floor: 300, Run: r01a},
-		Rule{ID: "R01b", Doc: "no other panic source in the decode closure", Floor: 30, Run: r01b},
+		Rule{ID: "R01a", Doc: "bounds of every index/slice in the decode closure", Floor: 300, AllVariants: true, Run: r01a},
+		Rule{ID: "R01b", Doc: "no other panic source in the decode closure", Floor: 25, AllVariants: true, Run: r01b},
 		Rule{ID: "R01c", Doc: "pool release precondition: non-nil, pool-born, capacity-preserving", Floor: 40, AllVariants: true, Run: r01c},
-		Rule{ID: "R01d", Doc: "every loop in the decode closure has a verified termination argument", Floor: 40, Run: r01d},
-		Rule{ID: "R01e", Doc: "decode errors are honoured", Floor: 60, Run: r01e},
-		Rule{ID: "R01f", Doc: "narrowing conversions of lengths/offsets/counters are range-checked", Floor: 2, Run: r01f},
+		Rule{ID: "R01d", Doc: "every loop in the decode closure has a verified termination argument", Floor: 40, AllVariants: true, Run: r01d},
+		Rule{ID: "R01e", Doc: "decode errors are honoured", Floor: 60, AllVariants: true, Run: r01e},
+		Rule{ID: "R01f", Doc: "narrowing conversions of lengths/offsets/counters are range-checked", Floor: 2, AllVariants: true, Run: r01f},
 		Rule{ID: "R03a", Doc: "a response is always assigned (used by R01e for rc.Response.Msg)", Floor: 6, Run: r03a},
 		Rule{ID: "R03f", Doc: "transport result contract (used by R01e: err == nil => message != nil)", Floor: 12, AllVariants: true, Run: r03f},
 		Rule{ID: "R20e", Doc: "a struct copied into its new owner is not released through the original", Floor: 1, AllVariants: true, Run: r20e},
